@@ -6,11 +6,106 @@ HERE = os.path.dirname(os.path.dirname(os.path.abspath(__file__)))
 
 # id -> (category, technique, level text, level note, design ref)
 CHECKS = {
+    "C01": ("exploration",
+            "reference-model monitor: generated abstract feed rendered under random byte presentations, ParseStatic result compared field by field (reflection dump) with an independent transcription; metamorphic equality across presentations",
+            "Every returned *Static of the run is compared, through a dump of all exported fields with pointers followed, with a transcription of the abstract model that never touches CSV; 5 (quick) to 9 (thorough) presentations per model, large models on both sides of slice-growth thresholds. Exploration over seeded models, not a proof over all feeds.",
+            "Trusts the reference transcription (sgen.Ref), the CSV/zip renderer of the harness and the zone-aware midnight oracle (days without a unique local midnight are skipped and counted).",
+            "DESIGN.md §3 C01"),
+    "C02": ("exploration",
+            "reference-model monitor: conflict-free protobuf messages (protobuf-go as wire encoder), ParseRealtime result vs independent transcription of the message, under 12 timezone options",
+            "Every surfaced field of every parse is compared with a transcription of the generated message (one value per field, boundary classes for numbers and floats, unrelated NYCT extension payloads attached). Exploration over seeded messages x zones.",
+            "Trusts protobuf-go as the wire encoder and the reference (rgen.Ref). Links (C04), informed-entity normalisation (C12) and vehicle order (C06) are excluded here.",
+            "DESIGN.md §3 C02"),
+    "C03": ("exploration",
+            "invariant walker over live results: pointer identity against the top-level slices, id named in the tagged source row, step-bounded forest walk, Root() cross-check; workload = random corruptions of valid feeds",
+            "Each returned *Static (valid and corrupted feeds, both option values, large feeds across slice growth) is walked at the API boundary; every row carries a unique tag so entities map back to rows even with duplicate ids. Exploration: held on the archives generated.",
+            "Trusts the tag mapping (free-text columns are transcribed verbatim, C01's subject). Absent optional references are always accepted.",
+            "DESIGN.md §3 C03"),
+    "C04": ("exploration",
+            "invariant monitor over an enumerated space: every way of expressing a trip-vehicle association x vehicle identity x entity permutation, plus random feeds; link targets compared by content with the top-level entries",
+            "The small space (1-2 pairs quick, 1-3 thorough; 21 combinations per pair; all permutations up to 5 entities) is enumerated completely and every parse is checked for presence, mutuality and content of both links; random larger feeds add bystanders. Exhaustive for the small space, exploration beyond.",
+            "Trusts the harness's association table (built constructively). Content equality, not pointer identity, is demanded, as in the statement.",
+            "DESIGN.md §3 C04"),
+    "C05": ("exploration",
+            "crash/hang monitor: child process per shard, case index logged before each case, recover() for panics, exit status for fatal errors, CPU-time budget for non-termination (re-run alone), structure-aware mutational workloads; thorough repeats on the -race build (checkptr)",
+            "Observes process behaviour of every exported entry point on hostile inputs of three corpora under all 30 extension configurations, including all accessors on returned results and journal building/export over parsed feeds. 'Terminates' is monitored as bounded progress (60 CPU-seconds alone). Exploration.",
+            "A purely blocking hang without CPU use would only surface as inconclusive (wall-clock watchdog); resource exhaustion proportional to input is out of scope by the statement.",
+            "DESIGN.md §3 C05"),
+    "C06": ("exploration",
+            "metamorphic monitor: repeated / history / equivalent-option / cross-process (and second-toolchain) parses of the same bytes must give identical ordered dumps; inputs served from PROT_READ pages (write = fault) and hashed before/after",
+            "Inputs are built so that every map-built output has >= 5 elements; 8-16 repeats, an A,B,A,C,A,B,C,A history with ONE reused options/extension object per configuration (30 configurations), 2-3 separate processes per case list (thorough: one built with go1.26.8). Exploration with a quantified miss probability for random orders.",
+            "Order-only differences are reported once per collection (C06|order-varies|...). Trusts the canonical dump to render every exported field.",
+            "DESIGN.md §3 C06"),
+    "C07": ("exploration",
+            "metamorphic monitor over entity permutations (all n! up to 5/6 entities, sampled above) plus uniqueness/sortedness/strict-weak-order invariants on conflict-free and deliberately conflicting messages; own-entity-wins via the reference model",
+            "Every permutation's parse is compared with the base order (trips in result order, vehicles as a multiset, links by content, alerts in relative feed order) and with the reference transcription. Exploration.",
+            "Trusts exported TripID.Less as the identifier order (itself checked to be a strict weak order on observed identifiers).",
+            "DESIGN.md §3 C07"),
+    "C08": ("exploration",
+            "reference order from the model + metamorphic equality across 8 row orders of stop_times.txt/shapes.txt + direct ascending-order invariants; large interleavings",
+            "Every parse under every row order must equal the expected order (file order, ascending sequence, shapes by id) and all must equal each other. Exploration.",
+            "Services compared order-normalised (C06 owns their order).",
+            "DESIGN.md §3 C08"),
+    "C09": ("exploration",
+            "metamorphic inertness monitor over an enumerated matrix (rejection cause x file x position) + offline warning checker against the rendered file",
+            "For each model the full matrix (about 70 cells x 5 positions) is walked; parse(M + bad rows) must equal parse(M) without warnings, and every reported warning must carry the file, 1-based row number and exact cells of an injected row. The matrix is enumerated; models are sampled.",
+            "Only causes the statement calls 'rejected' are injected. A warning is never demanded, only checked when present.",
+            "DESIGN.md §3 C09"),
+    "C10": ("exploration",
+            "metamorphic monitor: each default-bearing column respelled alone (blank / absent / mixture) and in combinations must parse like the explicit default; reference model for fill-in and inheritance; option off/on differential",
+            "All 16 default-bearing columns x applicable spellings per model, both option values, plus reference comparison of one-sided stop times and inherited wheelchair values. Exploration over seeded models.",
+            "Inheritance through non-station parents or through an unspecified parent station with its own parent is left open (either value accepted).",
+            "DESIGN.md §3 C10"),
+    "C11": ("exploration",
+            "reference-model monitor: calendar/calendar_dates merge model with zone-aware midnight oracle, 6 zones per model, invalid rows injected, direct range/uniqueness invariants",
+            "Static.Services of every parse is compared with the reference merge; exception rows before/inside/after the range, duplicates, ignored types, invalid rows that must not create or alter a service. Exploration.",
+            "Days without a unique local midnight are generated, not asserted, counted. Service order not asserted (C06).",
+            "DESIGN.md §3 C11"),
+    "C12": ("exploration",
+            "reference-model monitor: exhaustive single-selector space (1584 selectors) + random multi-selector alerts vs a normalisation model written from the statement",
+            "The whole single-selector presence space is enumerated; random alerts of 2-8 selectors hit the interactions (two derived routes, explicit route suppressing a derived one, identifiable trip beside route-only descriptors). Kept selectors must appear in order; derived route entities as a set.",
+            "For non-identifying descriptors with a route plus start time/date the derived route entity is accepted but not demanded (statement says 'only a route').",
+            "DESIGN.md §3 C12"),
     "C13": ("exploration",
             "reference-model monitor: recording hash.Hash + independent reflection-derived data key, two-way functional map over a mutant-closed population",
             "Every Trip.Hash/Vehicle.Hash call of the run is observed through a recording hash.Hash; the byte stream and an independently derived data key must determine each other over populations closed under all single-point mutations (found by reflection, so new fields are included). Exploration, not proof: it holds on the populations generated for the seed.",
             "Trusts the reflection walker's data key as injective and the ignore list taken from the statement (identity, zone presentation, in-message flags, Trip.Vehicle).",
             "DESIGN.md §3 C13"),
+    "C14": ("exploration",
+            "online trace checker: BuildJournal run on every prefix of a generated history, transition invariants between consecutive prefixes; exhaustive small histories",
+            "Histories are rendered as NYCT protobuf and parsed by the real ParseRealtime; after each feed the checker validates tail = update, head = unchanged prefix marked past, alignment to an occurrence of the first stop, and the rules for absent trips and ignored updates. All histories of <= 2 (quick) / <= 3 (thorough) feeds over lists of length <= 3 on {A,B,C} are enumerated.",
+            "Where the statement leaves the alignment open (repeated stop, unknown first stop, empty update) any retained prefix is accepted.",
+            "DESIGN.md §3 C14"),
+    "C15": ("exploration",
+            "reference-model monitor: direct replay of the parsed history (reference journal) vs BuildJournal under 10 windows and for every prefix",
+            "Selection (assigned, closed window), order, uniqueness, identifier fields, vehicle id, update count, last-observed and marked-past times are compared for every history x window. Exploration over seeded histories.",
+            "Stop-time lists are C14's; NumScheduleChanges/Rewrites are not in the statement.",
+            "DESIGN.md §3 C15"),
+    "C16": ("exploration",
+            "reference rules + differential monitor: exhaustive origin times (600000 ids), exhaustive rule table x 4 option combinations, mixed feeds with/without extension and swap-involution check",
+            "Origin-time and rule-table sub-spaces are enumerated completely in both tiers; mixed random feeds check that entities without NYCT data parse exactly as without extension up to the documented M-train swap (modelled independently), and that applying the extension to the swapped feed returns the original.",
+            "Directions other than NORTH/SOUTH are generated but not asserted.",
+            "DESIGN.md §3 C16"),
+    "C17": ("exploration",
+            "reference-model + differential monitor: elevator grouping model and Mercury mapping table vs ParseRealtime under all 24 option combinations, with entity permutations; plain alerts vs no-extension parse",
+            "Every feed is parsed in two entity orders under all 24 configurations with a fresh extension value; elevator output alerts compared as a set keyed by documented id with exact stop sets; other alerts compared with the no-extension parse plus the documented modifications.",
+            "When Mercury priorities of one alert disagree any mapped effect is accepted.",
+            "DESIGN.md §3 C17"),
+    "C18": ("exploration",
+            "Go race detector (-race build, halt_on_error=0, log parsed and de-duplicated by gtfs frame pair) over concurrent parses sharing one options value and PROT_READ inputs; per-call equality with the sequential baseline; logical-clock overlap log",
+            "2-32 goroutines per case parse shared inputs with ONE shared options/extension value under 12 configurations, then read each other's results concurrently (hash, Root, dump, CSV export). The happens-before detector flags unsynchronised pairs that executed; the evidence reports how many call pairs actually overlapped.",
+            "A race on a path no case reaches is not seen. Race reports without a gtfs frame are harness errors (inconclusive).",
+            "DESIGN.md §3 C18"),
+    "C19": ("fault_enumeration",
+            "fault enumeration over directory contents (nine entry kinds, all directories up to 3/4 entries) against a sorted-good-files model; real CLI runs; strace as syscall observer and as read-fault injector (EIO) with an offline log checker",
+            "Every directory of 1-3 (quick) / 1-4 (thorough) entries over the nine kinds is built on the real filesystem and replayed through DirectoryGtfsrtSource (step-bounded), plus random directories with hostile names, CLI runs and strace runs that make chosen files unreadable mid-stream.",
+            "'Good' is decided by the harness calling ParseRealtime with the source's options. Permission faults cannot be produced as root; EIO injection stands in for unreadable files.",
+            "DESIGN.md §3 C19"),
+    "C20": ("exploration",
+            "round-trip monitor: ExportToCsv output re-read with encoding/csv under the header names and compared cell by cell with the journal; before/after dump; repeat-export equality",
+            "Directly constructed journals cover every presence pattern and odd-but-legal strings and times; every 4th case exports a journal built from a generated history.",
+            "Strings are free of comma, double quote, CR, LF as the statement requires.",
+            "DESIGN.md §3 C20"),
 }
 
 NOT_BUILT_REASON = "check not built yet in this round (design in DESIGN.md §3); no claim is made"
